@@ -9,6 +9,11 @@
 #ifndef CQV_BW_HI
 #define CQV_BW_HI 32
 #endif
+#if CQV_BW_LO == CQV_BW_HI
+#define CQV_BW_DOM(b) ((b) == CQV_BW_LO)   /* equality: the width bits are unit-propagated */
+#else
+#define CQV_BW_DOM(b) ((b) >= CQV_BW_LO && (b) <= CQV_BW_HI)
+#endif
 #ifndef CQV_MULW
 #define CQV_MULW(x) ((size_t)(x) * (size_t)bit_width)
 #endif
